@@ -129,3 +129,96 @@ def annotated(src):
 
 EXTRA = (("log-inserted", log_inserted), ("compare-flipped", compare_flipped), ("return-via-temp", return_via_temp),
          ("else-after-return", else_after_return), ("annotated", annotated))
+
+
+# ---- second set --------------------------------------------------------------------------------------------------
+class _Aug(ast.NodeTransformer):
+    """`x += e` -> `x = x + e` for plain names and self attributes (numbers, bytes and str are immutable, so the two
+    forms agree; list-valued targets are skipped by looking at the operand)."""
+    def visit_AugAssign(self, node):
+        t = node.target
+        if isinstance(node.value, (ast.List, ast.ListComp)):
+            return node
+        if isinstance(t, ast.Name) or (isinstance(t, ast.Attribute) and isinstance(t.value, ast.Name) and t.value.id == "self"):
+            import copy
+            load = copy.deepcopy(t)
+            load.ctx = ast.Load()
+            return ast.copy_location(ast.Assign(targets=[t], value=ast.BinOp(left=load, op=node.op, right=node.value)), node)
+        return node
+
+
+def augassign_expanded(src):
+    tree = _Aug().visit(ast.parse(src))
+    ast.fix_missing_locations(tree)
+    return ast.unparse(tree) + "\n"
+
+
+class _DeMorgan(ast.NodeTransformer):
+    """`not (a or b)` <-> `not a and not b`; `a and b` in an if-test with no else -> nested ifs is variant `nested`."""
+    def visit_UnaryOp(self, node):
+        self.generic_visit(node)
+        if isinstance(node.op, ast.Not) and isinstance(node.operand, ast.BoolOp):
+            inner = node.operand
+            op = ast.And() if isinstance(inner.op, ast.Or) else ast.Or()
+            return ast.copy_location(ast.BoolOp(op=op, values=[ast.UnaryOp(op=ast.Not(), operand=v) for v in inner.values]), node)
+        return node
+
+
+def de_morgan(src):
+    tree = _DeMorgan().visit(ast.parse(src))
+    ast.fix_missing_locations(tree)
+    return ast.unparse(tree) + "\n"
+
+
+class _Nest(ast.NodeTransformer):
+    def visit_If(self, node):
+        self.generic_visit(node)
+        if not node.orelse and isinstance(node.test, ast.BoolOp) and isinstance(node.test.op, ast.And) and len(node.test.values) >= 2:
+            first, rest = node.test.values[0], node.test.values[1:]
+            inner_test = rest[0] if len(rest) == 1 else ast.BoolOp(op=ast.And(), values=rest)
+            inner = ast.copy_location(ast.If(test=inner_test, body=node.body, orelse=[]), node)
+            return ast.copy_location(ast.If(test=first, body=[inner], orelse=[]), node)
+        return node
+
+
+def and_nested(src):
+    tree = _Nest().visit(ast.parse(src))
+    ast.fix_missing_locations(tree)
+    return ast.unparse(tree) + "\n"
+
+
+class _Cont(ast.NodeTransformer):
+    """a loop body that is a single `if c: B` (no else) -> `if not c: continue` followed by B."""
+    def _loop(self, node):
+        self.generic_visit(node)
+        if len(node.body) == 1 and isinstance(node.body[0], ast.If) and not node.body[0].orelse and not node.orelse:
+            i = node.body[0]
+            t = i.test
+            nt = t.operand if isinstance(t, ast.UnaryOp) and isinstance(t.op, ast.Not) else ast.UnaryOp(op=ast.Not(), operand=t)
+            node.body = [ast.copy_location(ast.If(test=nt, body=[ast.copy_location(ast.Continue(), i)], orelse=[]), i)] + i.body
+        return node
+    visit_For = _loop
+    visit_While = _loop
+
+
+def early_continue(src):
+    tree = _Cont().visit(ast.parse(src))
+    ast.fix_missing_locations(tree)
+    return ast.unparse(tree) + "\n"
+
+
+def stat_counter(src):
+    """an unrelated bookkeeping statement at the top of every method: `self._selftest_calls = getattr(...) + 1`."""
+    tree = ast.parse(src)
+    for cls in [n for n in ast.walk(tree) if isinstance(n, ast.ClassDef)]:
+        for fn in cls.body:
+            if isinstance(fn, ast.FunctionDef) and fn.args.args and fn.args.args[0].arg == "self" and fn.name not in ("__init__", "__getattr__", "__setattr__", "__getattribute__") \
+                    and not any(isinstance(d, ast.Name) and d.id in ("staticmethod", "classmethod", "property") for d in fn.decorator_list):
+                st = ast.parse("self.__dict__['_selftest_calls'] = self.__dict__.get('_selftest_calls', 0) + 1").body[0]
+                fn.body.insert(_doc_skip(fn.body), st)
+    ast.fix_missing_locations(tree)
+    return ast.unparse(tree) + "\n"
+
+
+EXTRA2 = (("augassign-expanded", augassign_expanded), ("de-morgan", de_morgan), ("and-nested", and_nested),
+          ("early-continue", early_continue), ("stat-counter", stat_counter))
